@@ -360,10 +360,23 @@ def _anc(n):
         p = p.get("_p")
 
 
-def _first_index(n):
+def _first_index(n, depth=0):
     for x in walk(n):
         if x.get("k") == "Index" and not in_macro(x):
             return x
+    # the element was read into an immutable temporary first (`let magnitude = self[(i,j)].abs(); acc = acc.max(magnitude)`)
+    if depth < 3:
+        fnode = n.get("_fn")
+        if fnode is not None:
+            lets = {}
+            for s_ in walk(fnode["body"]):
+                if s_.get("k") == "Let" and (s_.get("pat") or {}).get("k") == "Bind" and not s_["pat"].get("mut") and s_.get("init") is not None:
+                    lets[s_["pat"]["v"]] = s_["init"]
+            for x in walk(n):
+                if x.get("k") == "Local" and x.get("v") in lets:
+                    r = _first_index(lets[x["v"]], depth + 1)
+                    if r.get("k") == "Index":
+                        return r
     return n
 
 
